@@ -407,6 +407,44 @@ async def sc_anext_iter(susp):
     return canon(a), canon(b), c, d
 
 
+async def sc_cm_generatorexit(susp):
+    """A contextmanager-made context inside an async generator that is closed early: the context is left by
+    GeneratorExit and its clean-up awaits something that suspends."""
+    log = []
+
+    @A.contextmanager
+    async def cm(tag):
+        if susp:
+            await Suspend(("acquire", tag), susp)
+        try:
+            yield tag
+        finally:
+            if susp:
+                await Suspend(("release", tag), susp)
+            log.append(("released", tag))
+
+    async def agen(tag):
+        async with cm(tag) as v:
+            yield v
+            yield v
+
+    out = []
+    g = agen("a")
+    out.append(await g.__anext__())
+    await g.aclose()
+    g = agen("b")
+    out.append(await g.__anext__())
+    try:
+        await g.athrow(GeneratorExit)
+    except (GeneratorExit, StopAsyncIteration):
+        out.append("closed")
+    async with A.ExitStack() as stack:
+        g = agen("c")
+        out.append(await g.__anext__())
+        stack.callback(g.aclose)
+    return out, log
+
+
 class FutureLike:
     """A user awaitable that is not a coroutine: every ``__await__`` call starts a fresh run.
 
@@ -579,7 +617,7 @@ async def sc_future_like(susp):
     return out, log
 
 
-CATALOGUE = {"future_like_awaitables": sc_future_like, "lru_cache": sc_lru, "cache": sc_cache, "cached_property_lock": sc_cached_property,
+CATALOGUE = {"contextmanager_left_by_generatorexit": sc_cm_generatorexit, "future_like_awaitables": sc_future_like, "lru_cache": sc_lru, "cache": sc_cache, "cached_property_lock": sc_cached_property,
              "cached_property": sc_cached_property_nolock, "contextmanager": sc_contextmanager,
              "ContextDecorator": sc_context_decorator, "ExitStack": sc_exitstack, "closing_nullcontext": sc_closing_nullcontext,
              "tee_lock": sc_tee_lock, "tee": sc_tee_nolock, "groupby": sc_groupby, "borrow_scoped_iter": sc_borrow_scoped,
